@@ -77,7 +77,10 @@ def corruptions(v, p, version, name):
         out += [("empty-dict", {}), ("key-too-short", dict(first, ab=val)), ("key-too-long", dict(first, **{"k" * 257: val})), ("key-251", dict(first, **{"k" * 251: val})),
                 ("key-illegal-char", dict(first, **{"bad key!": val})), ("value-null", dict(first, extra_key=None))]
     if k == "hashes":
-        out += [("non-spec-algorithm", {"FOO-1": "abc"}), ("wrong-length", {"MD5": "abcd"}), ("non-hex", {"MD5": "z" * 32}), ("empty-value", {"MD5": ""}), ("value-not-string", {"MD5": 5}),
+        out += [("non-spec-algorithm", {"FOO-1": "abc"}), ("non-spec-algorithm-before-spec-one", {"FOO-1": "abc", "MD5": gen.HASHES["MD5"]}),
+                ("non-spec-algorithm-between-spec-ones", {"SHA-256": gen.HASHES["SHA-256"], "FOO-1": "abc", "MD5": gen.HASHES["MD5"]}),
+                ("other-version-algorithm-before-spec-one", {("SHA-224" if version == "2.1" else "SHA3-256"): gen.HASHES["SHA-224" if version == "2.1" else "SHA3-256"], "MD5": gen.HASHES["MD5"]})
+                if version == "2.1" else ("bad-value-before-good-one", {"SHA-256": "zz", "MD5": gen.HASHES["MD5"]}), ("wrong-length", {"MD5": "abcd"}), ("non-hex", {"MD5": "z" * 32}), ("empty-value", {"MD5": ""}), ("value-not-string", {"MD5": 5}),
                 ("sha256-wrong-length", {"SHA-256": gen.HASHES["MD5"]}), ("lowercase-name", {"md5": gen.HASHES["MD5"]}), ("md6-garbage-suffix", {"MD6": gen.HASHES["MD5"] + "zz"})]
     if k == "binary":
         out += [("not-base64", "!!!not base64!!!"), ("bad-padding", "YQ="), ("whitespace", "Y Q = ="), ("trailing-garbage", "YQ==!!"), ("url-safe-alphabet", "-_-_")]
@@ -303,10 +306,57 @@ def run_datetime_objects(case, part):
             attempt(part, j, version, c, "timestamp/object:" + dlabel, ["parse(dict)", "constructor"])
 
 
+def reference_objects():
+    """library OBJECTS handed over where a reference is expected (the documented convenience form), whose identifier is fine where they were built but not
+    for every referrer: (label, factory)"""
+    import stix2
+    TS = "2016-05-12T08:17:27.000Z"
+    U1, NIL = "e1d2f3a4-5b6c-11ea-8d7e-0123456789ab", "00000000-0000-0000-0000-000000000000"
+
+    def mk(cls, **kw):
+        return lambda: cls(created=TS, modified=TS, **kw)
+    return [
+        ("v21-identity-uuid1", mk(stix2.v21.Identity, id="identity--" + U1, name="n")),
+        ("v21-identity-uuid4", mk(stix2.v21.Identity, id="identity--" + V4, name="n")),
+        ("v20-identity-uuid4", mk(stix2.v20.Identity, id="identity--" + V4, name="n", identity_class="individual")),
+        ("interoperability-identity-nil-uuid", mk(stix2.v21.Identity, id="identity--" + NIL, name="n", interoperability=True)),
+        ("interoperability-identity-20-nil-uuid", mk(stix2.v20.Identity, id="identity--" + NIL, name="n", identity_class="individual", interoperability=True)),
+        ("v21-malware-uuid1", mk(stix2.v21.Malware, id="malware--" + U1, name="n", is_family=False)),
+        ("v21-marking-uuid1", lambda: stix2.v21.MarkingDefinition(id="marking-definition--" + U1, created=TS, definition_type="statement", definition={"statement": "s"})),
+        ("v21-location-uuid4", mk(stix2.v21.Location, id="location--" + V4, region="europe")),
+    ]
+
+
+def run_reference_objects(case, part):
+    """every reference slot x every object form of a reference, through the constructor and parse(dict)"""
+    version, key, label = case["version"], case["key"], case["label"]
+    wrapped = None
+    for k2, l2, i2, w2, loc2 in harness.all_cases(version, keys=[key]):
+        if l2 == label:
+            wrapped = w2
+            break
+    if wrapped is None:
+        raise RuntimeError("generator no longer produces %s %s %s" % (version, key, label))
+    tkey = model.spec(version).key_for_type(wrapped["type"])
+    part.state((version, key, label, "reference-objects"), nontrivial=True)
+    for path, v, p, ckey, pname in harness.typed_slots(wrapped, version, tkey):
+        if p["kind"] != "ref" or not isinstance(v, str):
+            continue
+        for rlabel, make in reference_objects():
+            try:
+                ro = make()
+            except Exception:
+                continue
+            j = gen.set_path(wrapped, path, ro)
+            attempt(part, j, version, dict(case, slot=list(path), corruption="object:" + rlabel), "ref/object:" + rlabel, ["parse(dict)", "constructor"])
+
+
 def run_case(case, part):
     env.reset()
     if case.get("kind") == "datetime-objects":
         return run_datetime_objects(case, part)
+    if case.get("kind") == "reference-objects":
+        return run_reference_objects(case, part)
     version, key, label = case["version"], case["key"], case["label"]
     wrapped = loc = None
     for k2, l2, i2, w2, loc2 in harness.all_cases(version, keys=[key]):
@@ -371,7 +421,7 @@ def replay(case, part):
     if "extra" in case:
         c["with_extra"] = True
     if str(case.get("corruption", "")).startswith("object:"):
-        c = {"version": case["version"], "key": case["key"], "label": case["label"], "kind": "datetime-objects"}
+        c = {"version": case["version"], "key": case["key"], "label": case["label"], "kind": case.get("kind", "datetime-objects")}
     run_case(c, part)
 
 
@@ -386,9 +436,10 @@ def run(run):
             if th:
                 cases.append({"version": version, "key": key, "label": "min", "with_extra": True})
             cases.append({"version": version, "key": key, "label": "max", "kind": "datetime-objects"})
+            cases.append({"version": version, "key": key, "label": "max", "kind": "reference-objects"})
     run.mode = "DEV (fault enumeration)"
     run.rule = ("every (type, base in {minimal, maximal}, slot, corruption) + object-level corruptions x 3 entry forms in strict mode%s; states = distinct bases; an evaluation is "
-                "non-trivial whenever the library ACCEPTS the corrupted input (then the frozen validator judges the output); every timestamp slot also fed with datetime / STIXdatetime objects of every precision setting" % ("; x one extra valid optional property on minimal bases" if th else ""))
+                "non-trivial whenever the library ACCEPTS the corrupted input (then the frozen validator judges the output); every timestamp slot also fed with datetime / STIXdatetime objects of every precision setting, every reference slot with library objects of both versions / relaxed mode" % ("; x one extra valid optional property on minimal bases" if th else ""))
     run.bound = {"simultaneous_corruptions": 1, "bases": len(cases), "entry_forms": 3}
     run.assumptions += ["frozen spec model and validator mc/spec (MUST-level rules only; sanity-checked on the repository's example content)", "stix2patterns validates indicator patterns"]
     run.pmap(run_case, cases)
